@@ -9,7 +9,7 @@ Open Scope N_scope.
     every character of [m] accepted by the character of [p] at the same place.
     With [pchar_match] (bare keywords, parse patterns): equal up to ASCII case, a pattern space
     standing for any whitespace character.  With [pchar_exact] (quoted keywords): equal
-    case-sensitively, a pattern space standing for any whitespace character. *)
+    character for character (case-sensitively, a blank is a blank). *)
 Fixpoint seg_eq (pm : N -> N -> bool) (p m : str) : bool :=
   match p, m with
   | [], [] => true
@@ -332,7 +332,7 @@ Example gap_spans_newline :
 Proof. reflexivity. Qed.
 
 (** an exact (quoted) keyword: one segment, [*] is an ordinary character; the text occurs
-    case-SENSITIVELY ([pchar_exact]), a blank of the keyword standing for any whitespace *)
+    case-SENSITIVELY ([pchar_exact]), a blank of the keyword being a blank *)
 Theorem exact_keyword_spec : forall pat t,
   kw_is_match KExact pat t = true <->
   exists pre m post, t = pre ++ m ++ post /\ seg_eq pchar_exact pat m = true.
@@ -360,33 +360,31 @@ Proof.
   exists s0, rest, pre, m, t'. split; [reflexivity|exact H].
 Qed.
 
-(** quoted keywords are literal: a character of the keyword other than a space matches only itself *)
-Lemma pchar_exact_literal : forall p c, p <> 32 -> pchar_exact p c = true -> p = c.
+(** quoted keywords are literal: every character of the keyword, a blank included, matches only itself *)
+Lemma pchar_exact_literal : forall p c, pchar_exact p c = true -> p = c.
 Proof.
-  intros p c Hp H. unfold pchar_exact in H.
-  destruct (p =? 32) eqn:E.
-  - apply N.eqb_eq in E. contradiction.
-  - apply N.eqb_eq in H. exact H.
+  intros p c H. unfold pchar_exact in H. apply N.eqb_eq in H. exact H.
+Qed.
+
+(** the quoted form matches iff the text occurs verbatim (blanks included) *)
+Lemma seg_eq_exact_iff : forall p m, seg_eq pchar_exact p m = true <-> m = p.
+Proof.
+  induction p as [|pc p IH]; intros m; split.
+  - destruct m; [reflexivity|discriminate].
+  - intros ->. reflexivity.
+  - destruct m as [|c m]; cbn [seg_eq]; [discriminate|].
+    intros H. apply andb_true_iff in H. destruct H as [H1 H2].
+    apply pchar_exact_literal in H1. apply IH in H2. congruence.
+  - intros ->. cbn [seg_eq]. apply andb_true_iff. split.
+    + unfold pchar_exact. apply N.eqb_refl.
+    + apply IH; auto.
 Qed.
 
 (** a keyword without blanks: the quoted form matches iff the text occurs verbatim *)
 Lemma seg_eq_exact_no_blank : forall p m,
   forallb (fun c => negb (c =? 32)) p = true ->
   (seg_eq pchar_exact p m = true <-> m = p).
-Proof.
-  induction p as [|pc p IH]; intros m Hp; split.
-  - destruct m; [reflexivity|discriminate].
-  - intros ->. reflexivity.
-  - cbn [forallb] in Hp. apply andb_true_iff in Hp. destruct Hp as [Hc Hp].
-    destruct m as [|c m]; cbn [seg_eq]; [discriminate|].
-    intros H. apply andb_true_iff in H. destruct H as [H1 H2].
-    apply negb_true_iff, N.eqb_neq in Hc.
-    apply pchar_exact_literal in H1; [|exact Hc]. apply IH in H2; [|exact Hp]. congruence.
-  - intros ->. cbn [forallb] in Hp. apply andb_true_iff in Hp. destruct Hp as [Hc Hp].
-    cbn [seg_eq]. apply andb_true_iff. split.
-    + unfold pchar_exact. apply negb_true_iff in Hc. rewrite Hc. apply N.eqb_refl.
-    + apply IH; auto.
-Qed.
+Proof. intros p m _. apply seg_eq_exact_iff. Qed.
 
 (** segments are literal: a character of the pattern other than a space matches only itself up to ASCII case *)
 Lemma pchar_match_literal : forall p c, p <> 32 -> pchar_match p c = true -> ascii_lower p = ascii_lower c.
